@@ -532,6 +532,19 @@ func init() {
 		o.Check(e.Arg(add, 1) == "recv.version" && e.Arg(add, 2) == "p0.Id", "vi-add-args", "the version index entry must be (new version, silence id)", add)
 		mi := o.One(e.Calls(ix, "(am/silence.matcherIndex).add"), "mi-add", "indexSilence must compile the matchers into the matcher index", ix)
 		o.Check(e.Arg(mi, 1) == "p0", "mi-add-arg", "the matcher index must be fed the indexed silence", mi)
+		// a loaded snapshot is indexed under the version the store has after the load (an entry indexed at or
+		// below a version some alert's cache already holds is never evaluated for that alert)
+		if lv := e.StoresTo(ls, "recv.version"); o.Check(len(lv) == 1, "load-bump", "loadSnapshot must set the store version exactly once", nil) {
+			after := e.X(ls, lv[0].Val)
+			o.Check(after == "(recv.version + 1)", "load-bump-value", "loading a snapshot must advance the version, sets "+after, lv[0])
+			adds := e.Calls(ls, "(*am/silence.versionIndex).add")
+			o.Check(len(adds) >= 1, "load-vi-add", "loadSnapshot no longer fills the version index", nil)
+			for _, a := range adds {
+				o.Site(a, "snapshot entry indexed at "+e.Arg(a, 1))
+				o.Check(e.Arg(a, 1) == after, "load-vi-version", "snapshot entries are indexed at "+e.Arg(a, 1)+" while the store version becomes "+after+": a cache at the old version skips them, the loaded silences never mute", a)
+				o.Check(strings.HasSuffix(e.Arg(a, 2), ".Silence.Id"), "load-vi-id", "the version index entry must name the loaded silence", a)
+			}
+		}
 		// findVersionGreaterThan strict
 		fv := o.Fn("(am/silence.versionIndex).findVersionGreaterThan$1")
 		rets := (&Walk{Fn: fv}).FromEntry().Returns()
